@@ -405,6 +405,12 @@ func (c *vf10Case) format(addr oid.Address) string {
 	return f
 }
 
+// vf10IsZstd tells whether b starts with the zstd frame magic (own copy: the classification
+// of a finding must not depend on the code under test).
+func vf10IsZstd(b []byte) bool {
+	return len(b) >= 4 && b[0] == 0x28 && b[1] == 0xb5 && b[2] == 0x2f && b[3] == 0xfd
+}
+
 // formatLen returns the on-disk format of addr's data and the number of bytes it
 // occupies on disk (member length for combined files, file length otherwise).
 func (c *vf10Case) formatLen(addr oid.Address) (string, int) {
@@ -427,7 +433,7 @@ func (c *vf10Case) formatLen(addr oid.Address) (string, int) {
 			l := int64(binary.BigEndian.Uint32(p[combinedLengthOff:]))
 			if bytes.Equal(p[combinedIDOff:combinedLengthOff], id[:]) {
 				var m [4]byte
-				if _, err := f.ReadAt(m[:], off+combinedDataOff); err == nil && isCompressed(m[:]) {
+				if _, err := f.ReadAt(m[:], off+combinedDataOff); err == nil && vf10IsZstd(m[:]) {
 					return "combined+zstd", int(l)
 				}
 				return "combined", int(l)
@@ -439,7 +445,7 @@ func (c *vf10Case) formatLen(addr oid.Address) (string, int) {
 	if st, err := f.Stat(); err == nil {
 		sz = int(st.Size())
 	}
-	if isCompressed(b[:n]) {
+	if vf10IsZstd(b[:n]) {
 		return "zstd", sz
 	}
 	return "plain", sz
